@@ -71,7 +71,10 @@ def run_case(case):
         OffDiagonalElasticModulusPhononContribution as Off,
     )
     spec = spec_of(case)
+    if case.get("_at") is not None:
+        spec["_at"] = case["_at"]
     duck, laws, w, t, v = D.build(spec)
+    duck_id = id(duck)
     e = D.strain_field(case["strain"], v)
     ref = reference(laws, w, t, v)
     viol = []
@@ -146,6 +149,7 @@ def run_case(case):
            "outcome": ("trivial" if not nontrivial else "ok") if not viol else viol[0]["sig"]}
     if ratios:
         out["zp_ratio"] = [min(ratios), max(ratios)]
+    out["duck_id"] = duck_id
     return out
 
 
@@ -215,10 +219,14 @@ def run_sequence(case):
     values of the free-energy reference for ITS OWN spectrum and grids."""
     import gc
     out = {"viol": [], "nontrivial": True, "outcome": "sequence-ok"}
+    prev, reused = None, 0
     for n, idx in enumerate(case["order"]):
-        c = dict(HIST_SPECS[idx], strain="const")
+        c = dict(HIST_SPECS[idx], strain="const", _at=prev)     # ask for the address the released predecessor had
         r = run_case(c)
         gc.collect()
+        reused += int(prev is not None and r.get("duck_id") == prev)
+        prev = r.get("duck_id")
+        out["address_reused"] = reused
         if r["viol"]:
             v0 = r["viol"][0]
             out["viol"].append(V("c01:process-history:" + v0["sig"].split(":", 1)[1], f"object #{n} of sequence {case['order']} (after {case['order'][:n]} were used and released): {v0['msg']}"))
